@@ -103,3 +103,60 @@ func c11CaseMap(c *Ctx, idx int) {
 		}
 	}
 }
+
+// ---- trim: what counts as white space at the edges
+//
+// With $chars omitted or empty, the trim family removes the specification's white space - the 25
+// code points of Unicode's White_Space property, which the compliance corpus spells out - and
+// nothing else.  Every code point of the categories Z*, Cc and Cf, the other invisible or blank-looking
+// characters (Mongolian vowel separator, Hangul fillers, Braille blank, zero-width characters), and
+// all of Latin-1 stand at both edges of a subject, alone and mixed with real white space.
+var trimRunes []rune
+
+func trimSetup() {
+	if trimRunes != nil {
+		return
+	}
+	seen := map[rune]bool{}
+	add := func(r rune) {
+		if !seen[r] && !(r >= 0xD800 && r <= 0xDFFF) {
+			seen[r] = true
+			trimRunes = append(trimRunes, r)
+		}
+	}
+	for r := rune(0); r <= 0xFF; r++ {
+		add(r)
+	}
+	for r := rune(0x100); r <= unicode.MaxRune; r++ {
+		if unicode.In(r, unicode.Z, unicode.Cc, unicode.Cf) || unicode.Is(unicode.White_Space, r) || unicode.Is(unicode.Other_Default_Ignorable_Code_Point, r) {
+			add(r)
+		}
+	}
+	for _, r := range []rune{0x180E, 0x034F, 0x115F, 0x1160, 0x17B4, 0x17B5, 0x3164, 0xFFA0, 0x2800, 0x200B, 0x2060, 0xFEFF, 0x00AD, 0x1D159, 0x1D173, 0xE0020, 0xE0001, 0x2422, 0x2423, 0x3000, 0x303F, 0xFFFD, 0x10FFFF} {
+		add(r)
+	}
+}
+
+func trimN(c *Ctx) int { trimSetup(); return (len(trimRunes) + 3) / 4 }
+
+func c02TrimEdges(c *Ctx, idx int) {
+	trimSetup()
+	lo := idx * 4
+	hi := lo + 4
+	if hi > len(trimRunes) {
+		hi = len(trimRunes)
+	}
+	for _, r := range trimRunes[lo:hi] {
+		x := string(r)
+		for _, s := range []string{x + "abc" + x, " " + x + " abc\t" + x + "\n", x, x + x, "abc " + x + " ", " " + x + "a" + x + "　"} {
+			doc := ref.NewObj()
+			doc.Set("s", s)
+			for _, text := range []string{"trim(s)", "trim_left(s)", "trim_right(s)", "trim(s, '')", "trim_left(s, '')", "trim_right(s, '')", "[length(trim(s)), trim(s) == trim_left(trim_right(s))]"} {
+				m, _ := c.CheckModel("C02", text, doc, ref.ToGo(doc, ref.JSONNumber), CheckOpts{Features: map[string]string{"stream": "trim-edges", "code_point": fmt.Sprintf("U+%04X", r)}})
+				if !m.Unspec {
+					c.Nontrivial(text, s)
+				}
+			}
+		}
+	}
+}
